@@ -201,6 +201,9 @@ def mpss(seed, tier):
         C.convert_form(['B', 'C', 'A', None][:3] + ['Th'])
         C.norm = 0.7
         out.append((kind + ':random:finite:mixed-form', C))
+        N = psi.copy()
+        N.set_B(1, 2.0 * N.get_B(1), form=None)  # a tensor in no canonical form
+        out.append((kind + ':random:finite:no-form', N))
         ipsi = MPS.from_random_unitary_evolution([s] * 2, 3, st, 'infinite')
         out.append((kind + ':random:infinite', ipsi))
         seg = ipsi.extract_segment(1, 4)
